@@ -6,7 +6,7 @@ From Coq Require Import Ascii String List Bool Arith ZArith NArith Lia.
 From PTBase Require Import Exn PyStr PyNum PyVal Fmt FixedFormat.
 From PTModel Require Import Fortran.
 From Gen Require Import GenTables.
-From P Require Import Num Names InconIO Wf Lines Blocks RoundTrip Idem.
+From P Require Import Num Names InconIO Wf Lines Blocks RoundTrip Idem Fields Fits.
 Import ListNotations.
 Open Scope nat_scope.
 Open Scope list_scope.
@@ -29,6 +29,12 @@ Definition idem_hyp (reset : bool) (i : incon) : bool :=
   match the_layouts with Ok L => idemb L reset i | Raise _ => false end.
 Definition canon (reset : bool) (i : incon) : incon :=
   match the_layouts with Ok L => canon_L L reset i | Raise _ => i end.
+
+(** well-formed: structure + every value fits its field (Fits.v) *)
+Definition wf_fits (nv : option nat) (check reset : bool) (i : incon) : bool :=
+  match the_layouts with Ok L => wfb_fits L nv check reset i | Raise _ => false end.
+Lemma wf_fits_wf nv check reset i : wf_fits nv check reset i = true -> wf nv check reset i = true.
+Proof. unfold wf_fits, wf. destruct the_layouts; [apply wfb_fits_wfb|auto]. Qed.
 
 Theorem read_write nv check reset i : wf nv check reset i = true ->
   exists ls, write reset i = Ok ls /\ read nv check ls = Ok (canon reset i).
@@ -57,6 +63,19 @@ Proof.
   intros W I. destruct (read_write _ _ _ _ W) as [ls [Wr Rd]]. exists ls, (canon reset i).
   repeat split; [exact Wr|exact Rd|]. rewrite (write_idem _ _ _ _ W I). exact Wr.
 Qed.
+
+Theorem read_write_fits nv check reset i : wf_fits nv check reset i = true ->
+  exists ls, write reset i = Ok ls /\ read nv check ls = Ok (canon reset i).
+Proof. intro H. apply read_write. apply wf_fits_wf. exact H. Qed.
+Theorem read_write_fits_L L nv check reset i : layouts_ok L = true -> wfb_fits L nv check reset i = true ->
+  exists ls, write_L L reset i = Ok ls /\ read_L L nv check ls = Ok (canon_L L reset i).
+Proof. intros HL H. apply read_write_L; [exact HL|apply wfb_fits_wfb; exact H]. Qed.
+Theorem write_idem_fits nv check reset i : wf_fits nv check reset i = true -> idem_hyp reset i = true ->
+  write reset (canon reset i) = write reset i.
+Proof. intros W I. apply (write_idem nv check); [apply wf_fits_wf; exact W|exact I]. Qed.
+Theorem second_write_identical_fits nv check reset i : wf_fits nv check reset i = true -> idem_hyp reset i = true ->
+  exists ls j, write reset i = Ok ls /\ read nv check ls = Ok j /\ write reset j = Ok ls.
+Proof. intros W I. apply second_write_identical; [apply wf_fits_wf; exact W|exact I]. Qed.
 
 (** ** what the object read back keeps *)
 Lemma cn_is_some f o : is_some (cn f o) = is_some o.
@@ -128,7 +147,7 @@ Definition ex_tr : incon :=
                     perm := Some (PDy false 3961408125713217 (-95), PDy false 3961408125713217 (-95), PDy false 3961408125713217 (-95));
                     vars := [R false 103125 5; R false 31 (-1); R true 399 (-2); R false 1 (-2); R false 375 2] |} ];
      timing_ := Some {| kcyc := Some 11100%Z; iter := Some 40102%Z; nm := Some 1%Z; tstart := R false 0 0; sumtim := R false 7244475132352135 (-37) |} |}.
-Example ex_tr_wf : wf (Some 5) true false ex_tr = true /\ idem_hyp false ex_tr = true.
+Example ex_tr_wf : wf_fits (Some 5) true false ex_tr = true /\ idem_hyp false ex_tr = true.
 Proof. vm_compute. split; reflexivity. Qed.
 (** TOUGH2, no blocks at all / one block with one variable, no num_variables, timing dropped by reset *)
 Definition ex_empty : incon := {| sim := TOUGH2; blocks := []; timing_ := None |}.
@@ -136,8 +155,8 @@ Definition ex_t2 : incon :=
   {| sim := TOUGH2;
      blocks := [ {| bname := s2l "  aab"; nseq := None; nadd := None; porosity := R false 1 (-2); perm := None; vars := [R false 3125 5] |} ];
      timing_ := Some {| kcyc := Some 1%Z; iter := Some 2%Z; nm := Some 3%Z; tstart := R false 0 0; sumtim := R false 375 2 |} |}.
-Example ex_t2_wf : wf None true true ex_empty = true /\ idem_hyp true ex_empty = true /\
-                   wf None false true ex_t2 = true /\ idem_hyp true ex_t2 = true /\ wf (Some 1) false false ex_t2 = true.
+Example ex_t2_wf : wf_fits None true true ex_empty = true /\ idem_hyp true ex_empty = true /\
+                   wf_fits None false true ex_t2 = true /\ idem_hyp true ex_t2 = true /\ wf_fits (Some 1) false false ex_t2 = true.
 Proof. vm_compute. repeat split; reflexivity. Qed.
 Example ex_tr_file : match write false ex_tr with Ok ls => length ls | Raise _ => 0 end = 9.
 Proof. vm_compute. reflexivity. Qed.
@@ -186,7 +205,7 @@ Definition w_header : incon :=
      timing_ := Some {| kcyc := Some 1%Z; iter := Some 2%Z; nm := Some 3%Z; tstart := R false 0 0; sumtim := R false 8483883256778389 (-36) |} |}.
 Definition lines_eqb (a b : list str) : bool := str_eqb (concat a) (concat b).
 Definition header_witness_check : bool :=
-  wf (Some 2) true false w_header &&
+  wf_fits (Some 2) true false w_header &&
   match write false w_header with
   | Ok ls => match read (Some 2) true ls with
              | Ok j => match write false j with
@@ -197,7 +216,7 @@ Definition header_witness_check : bool :=
 Lemma header_witness_checked : header_witness_check = true.
 Proof. vm_compute. reflexivity. Qed.
 Theorem second_write_refuted :
-  exists i ls j ls2, wf (Some 2) true false i = true /\ write false i = Ok ls /\ read (Some 2) true ls = Ok j /\
+  exists i ls j ls2, wf_fits (Some 2) true false i = true /\ write false i = Ok ls /\ read (Some 2) true ls = Ok j /\
                      write false j = Ok ls2 /\ lines_eqb ls ls2 = false /\ lines_eqb (skipn 1 ls) (skipn 1 ls2) = true.
 Proof.
   pose proof header_witness_checked as H. unfold header_witness_check in H. apply andb_prop in H as [Hwf H].
